@@ -14,6 +14,14 @@ HINTS = {
           "failed, refused or cancelled operation, after a re-configuration, or after an internal identifier has been reused; (c) REPRESENTATION: only one "
           "representation of a value fails - negative numbers, values at or above 2**31 / 2**63, zero or maximal length, the non-default width or byte order, "
           "bool instead of int, bytearray / memoryview instead of bytes, a float where integers are usual."),
+    "H": ("This time prefer one of: (a) INTERACTION: each feature alone still works - the failure needs two features of the library used TOGETHER in one "
+          "program, group, frame or process (for example explicit byte order with fixed point, a subprogram with a hash map, FMMU and directly addressed "
+          "terminals in one group, a read-only terminal with bit variables, two channels or two instances of one class, slow and fast groups on one master); "
+          "(b) ENVIRONMENT and LEFTOVERS: the failure depends on what the process finds around it - a file or directory left behind by an earlier run or a "
+          "crashed process, a file that exists with another size or stale content, the number of CPUs, the order in which a dict or set happens to iterate, "
+          "object identity / address reuse, the monotonic clock standing still or jumping, an interface or path name of unusual length; "
+          "(c) SWALLOWED ERRORS: an error is caught (a broad except, a default value, a retry that gives up) and replaced by something that looks like "
+          "success, so the operation silently does less than it claims."),
 }
 pid, rnd = sys.argv[1], sys.argv[2]
 base = subprocess.run([sys.executable, "/verif/harness/agent_prompt.py", pid], capture_output=True, text=True, check=True).stdout
